@@ -91,6 +91,11 @@ def fingerprint_url(url, unsplit=True, strip_suffix=False, platform_aware=False)
         platform_aware=platform_aware,
         lowercase=True,
     )
+
+    # NOTE: an url that cannot be parsed comes back as it is, as from normalize_url
+    if not isinstance(splitted, SplitResult):
+        return splitted
+
     _, netloc, path, query, fragment = splitted
 
     user, password, hostname, port = (
